@@ -16,8 +16,9 @@ def probe_lines(t, tr_path, cid, maybe_send_rc=False):
             continue
         s1, e1, _d = m.call_args(50, "p%d" % mi)
         L += ["    " + s for s in s1]
-        L.append("    { let fut = x.%s(%s); ::vrt::fact(\"send:%s\", ::vrt::value_is!(&fut ; ::core::marker::Send)); ::vrt::fact(\"out:%s\", ::vrt::output_type_name(&fut)); }" % (
-            m.cname(), ", ".join(e1), m.name, m.name))
+        # (fully qualified: a supertrait may declare a method of the same name)
+        L.append("    { let fut = <__X as %s>::%s(x%s); ::vrt::fact(\"send:%s\", ::vrt::value_is!(&fut ; ::core::marker::Send)); ::vrt::fact(\"out:%s\", ::vrt::output_type_name(&fut)); }" % (
+            tr_path, m.cname(), "".join(", " + e for e in e1), m.name, m.name))
     L.append("}")
     return L
 
